@@ -109,6 +109,8 @@ def collect():
     d('asyncPerInstance', 'List (String × Bool × Bool × Bool)',
       lean_list('(%s, %s, %s, %s)' % (lean_str(n), *('true' if x else 'false' for x in r)) for n, r in async_per_instance()))
     d('asyncInitFramerReadsSelf', 'Bool', 'true' if async_init_reads_self_framer() else 'false')
+    # C16: which transaction manager (matching by transaction id, or FIFO) each way of building a protocol object gives
+    d('asyncManagerKinds', 'List (String × String)', lean_list('(%s, %s)' % (lean_str(a), lean_str(b)) for a, b in async_manager_kinds()))
     # C16: what ModbusClientProtocol.dataReceived passes as `unit=` to the framer: the literal 0 (accept the unit of the
     # buffered frame) or something computed (before 0a3302f: read off the chunk)
     d('asyncDataReceivedUnit', 'String', lean_str(async_data_received_unit()))
@@ -161,6 +163,31 @@ def async_per_instance():
                             len(b.framer._buffer) == 0)))
         a.framer.resetFrame()
     return rows
+
+
+def async_manager_kinds():
+    """(how the protocol object is built, class of its transaction manager): the socket framer - given as an instance,
+    as a class, or by default - must come with the dictionary-keyed manager, any other framer with the FIFO one"""
+    import warnings
+    with warnings.catch_warnings():
+        warnings.simplefilter('ignore')
+        from pymodbus.client.asynchronous import twisted as T
+    from pymodbus.framer.socket_framer import ModbusSocketFramer
+    from pymodbus.framer.rtu_framer import ModbusRtuFramer
+    from pymodbus.framer.ascii_framer import ModbusAsciiFramer
+    from pymodbus.factory import ClientDecoder
+    builders = [('default', lambda: T.ModbusClientProtocol()),
+                ('socket-instance', lambda: T.ModbusClientProtocol(ModbusSocketFramer(ClientDecoder()))),
+                ('socket-class', lambda: T.ModbusClientProtocol(framer=ModbusSocketFramer)),
+                ('tcp-default', lambda: T.ModbusTcpClientProtocol()),
+                ('tcp-socket-class', lambda: T.ModbusTcpClientProtocol(framer=ModbusSocketFramer)),
+                ('factory', lambda: T.ModbusClientFactory().buildProtocol(None)),
+                ('rtu-instance', lambda: T.ModbusClientProtocol(ModbusRtuFramer(ClientDecoder()))),
+                ('rtu-class', lambda: T.ModbusClientProtocol(framer=ModbusRtuFramer)),
+                ('ascii-class', lambda: T.ModbusClientProtocol(framer=ModbusAsciiFramer)),
+                ('serial-default', lambda: T.ModbusSerClientProtocol()),
+                ('serial-rtu-class', lambda: T.ModbusSerClientProtocol(framer=ModbusRtuFramer))]
+    return [(n, type(mk().transaction).__name__) for n, mk in builders]
 
 
 def async_init_reads_self_framer():
